@@ -432,6 +432,7 @@ def run(chk, repo, tier):
     run_more(chk, repo)
     run_w8(chk, repo)
     run_w9(chk, repo)
+    run_w10_w11(chk, repo)
 
 
 def run_more(chk, repo):
@@ -542,3 +543,87 @@ def run_w9(chk, repo):
             del other
     if n < 1:
         raise AnalysisError('W9: no graph composition found in workflow.py')
+
+
+def run_w10_w11(chk, repo):
+    """W10: a Task stores the static inputs it was given as they are (a single input that is a tuple stays one input) and
+    replace() hands them back star-expanded; W11: insert_workflow pairs N inputs with N outputs only when the counts are equal
+    and refuses N:M"""
+    from sa import reach, guards as G_
+    W10 = chk.rule('W10', 'Task: __init__ stores *task_input unchanged; replace() re-creates the task with the inputs '
+                          'star-expanded', floor=2)
+    tm = repo.module('pharmpy.workflows.task')
+    tc = tm.classes.get('Task')
+    init = tc.methods.get('__init__') if tc else None
+    rep = tc.methods.get('replace') if tc else None
+    if init is None or rep is None:
+        raise AnalysisError('Task.__init__ / Task.replace not found')
+    va = init.node.args.vararg.arg if init.node.args.vararg else None
+    if va is None:
+        raise AnalysisError('W10: Task.__init__ has no *task_input')
+    rebinds = [a for a in ast.walk(init.node) if isinstance(a, (ast.Assign, ast.AugAssign, ast.AnnAssign))
+               and any(isinstance(t, ast.Name) and t.id == va for t in ast.walk(
+                   a.targets[0] if isinstance(a, ast.Assign) else a.target))]
+    stores = [a for a in ast.walk(init.node) if isinstance(a, (ast.Assign, ast.AnnAssign))
+              and '_task_input' in unparse(a.targets[0] if isinstance(a, ast.Assign) else a.target)]
+    ok = bool(stores) and not rebinds and all(unparse(a.value) in (va, f'tuple({va})') for a in stores)
+    chk.instance(W10, f'Task.__init__: self._task_input = {[unparse(a.value) for a in stores]}, *{va} rebound: {bool(rebinds)}: {ok}')
+    if not ok:
+        chk.violation(W10, tm.rel, init.qualname, unparse((rebinds or stores or [init.node])[0])[:80],
+                      'the static inputs are reinterpreted (a lone tuple is spread): the function is called with other arguments '
+                      'than the task was created with', line=(rebinds or stores or [init.node])[0].lineno,
+                      witness="Task('bounds', f, (0.5, 2.0)): f is called as f(0.5, 2.0) instead of f((0.5, 2.0))")
+    creates = [c for c in calls_in(rep.node) if (dotted(c.func) or '').split('.')[-1] in ('create', 'Task')
+               and (dotted(c.func) or '').startswith(('Task', 'cls', 'type(self)', 'self.__class__'))]
+    if not creates:
+        raise AnalysisError('W10: Task.replace does not create a Task')
+    for c in creates:
+        starred = any(isinstance(a, ast.Starred) for a in c.args)
+        chk.instance(W10, f'Task.replace: {unparse(c)[:60]} passes the inputs star-expanded: {starred}')
+        if not starred:
+            chk.violation(W10, tm.rel, rep.qualname, unparse(c)[:80],
+                          'the inputs are handed over as one tuple argument: the new task has a single static input (the tuple)',
+                          line=c.lineno, witness='task.replace(name="x") of a task with two static inputs')
+    W11 = chk.rule('W11', 'WorkflowBuilder.insert_workflow: inputs and outputs are paired one to one only under a test that '
+                          'their numbers are equal; the remaining case raises', floor=1)
+    wm = repo.module('pharmpy.workflows.workflow')
+    wb = wm.classes.get('WorkflowBuilder')
+    iw = wb.methods.get('insert_workflow') if wb else None
+    if iw is None:
+        raise AnalysisError('WorkflowBuilder.insert_workflow not found')
+    cfg = CFG(iw.node)
+    # the one-to-one pairing: a zip(inputs, outputs) in a loop header or in the value of a statement
+    zips = []
+    for n in cfg.nodes.values():
+        root = n.ast.iter if n.kind == 'for' else n.ast if n.kind == 'stmt' else None
+        if root is None:
+            continue
+        for c in ast.walk(root):
+            if isinstance(c, ast.Call) and dotted(c.func) == 'zip' and len(c.args) == 2:
+                zips.append((n, c))
+    if not zips:
+        raise AnalysisError('W11: pairing zip(inputs, outputs) not found in insert_workflow')
+    for z, zc in zips:
+        a_, b_ = (unparse(x) for x in zc.args)
+
+        def same_len(e, a_=a_, b_=b_, at=z.id):
+            if isinstance(e, ast.Compare) and len(e.ops) == 1 and isinstance(e.ops[0], (ast.Eq, ast.NotEq)):
+                want = {f'len({a_})', f'len({b_})'}
+                raw = {unparse(e.left), unparse(e.comparators[0])}
+                # the lengths may be held in locals (n_in, n_out = len(a), len(b)): one level of resolution
+                res = {unparse(reach.expand_expr(cfg, at, x, depth=1)) if isinstance(x, ast.Name) else unparse(x)
+                       for x in (e.left, e.comparators[0])}
+                if raw == want or res == want:
+                    return isinstance(e.ops[0], ast.Eq)
+            return None
+        ok = bool(G_.guarded(cfg, z.id, same_len))
+        chk.instance(W11, f'insert_workflow: `zip({a_}, {b_})` only when len({a_}) == len({b_}): {ok}')
+        if not ok:
+            chk.violation(W11, wm.rel, iw.qualname, f'zip({a_}, {b_}) without a length test',
+                          'an N:M insertion is accepted and silently truncated to min(N, M) pairs', line=z.line,
+                          witness='insert a workflow with 3 inputs after 2 tasks: one input runs without upstream result')
+    raises = [r for r in ast.walk(iw.node) if isinstance(r, ast.Raise)]
+    chk.instance(W11, f'insert_workflow: the unsupported case raises: {bool(raises)}')
+    if not raises:
+        chk.violation(W11, wm.rel, iw.qualname, 'no raise for N:M', 'an unsupported N:M insertion is not refused',
+                      line=iw.node.lineno, witness='insert a workflow with 3 inputs after 2 tasks')
